@@ -5,6 +5,8 @@ use std::panic::{catch_unwind, AssertUnwindSafe};
 pub mod c03;
 pub mod c05;
 pub mod c06;
+pub mod c07;
+pub mod c08;
 pub mod c09;
 pub mod c10;
 pub mod c12;
@@ -51,6 +53,8 @@ pub fn generate(id: &str, thorough: bool, seed: u64, em: &mut Emitter) {
         "C04" => jwtk::generate_c04(thorough, seed, em),
         "C05" => c05::generate(thorough, seed, em),
         "C06" => c06::generate(thorough, seed, em),
+        "C07" => c07::generate(thorough, seed, em),
+        "C08" => c08::generate(thorough, seed, em),
         "C09" => c09::generate(thorough, seed, em),
         "C10" => c10::generate(thorough, seed, em),
         "C11" => jwtk::generate_c11(thorough, seed, em),
@@ -72,6 +76,8 @@ pub fn execute(kind: &str, input: &Value) -> Value {
         "bstep" => jwtk::exec_bstep(input),
         "history" => c13::exec_history(input),
         "yaml" => c15::exec_yaml(input),
+        "conform" => c07::exec_conform(input),
+        "discbuild" => c07::exec_discbuild(input),
         "decode" => jwtk::exec_decode(input),
         _ => json!({"harness_error": format!("unknown kind {}", kind)}),
     }
